@@ -1228,8 +1228,17 @@ func (x *vtx) c18r3() {
 		ifi, ok := blk.Instrs[len(blk.Instrs)-1].(*ssa.If)
 		okc := false
 		if ok {
-			f, _ := condFact(ifi.Cond, true)
-			okc = cmpMatch(f, token.LEQ, func(v ssa.Value) bool { return v == ssa.Value(pr.phi) }, x.fld(pr.dim))
+			// (the side that stays in the loop states counter <= dimension, whichever
+			// way round the test is written)
+			_, body := loopOf(blk)
+			for k, sense := range []bool{true, false} {
+				if k >= len(blk.Succs) || !body[blk.Succs[k]] || blk.Succs[k] == blk {
+					continue
+				}
+				if f, okf := condFact(ifi.Cond, sense); okf && cmpMatch(f, token.LEQ, func(v ssa.Value) bool { return v == ssa.Value(pr.phi) }, x.fld(pr.dim)) {
+					okc = true
+				}
+			}
 		}
 		c.check(okc, "C18.R3", key, "loop header tests "+pr.n+" <= "+pr.dim.Name(), "the redraw loop over "+pr.n+" is not bounded by <= "+pr.dim.Name(), m.pos(ifiPos(blk)))
 	}
